@@ -44,7 +44,11 @@ sanitize (const char *str, size_t length)
 const char *
 sanitize_utf8 (const char *text, size_t length)
 {
+#if defined(LIBEAV_VERIF) && defined(LIBEAV_VERIF_TEXT_SIZE)
+#define TEXT_SIZE LIBEAV_VERIF_TEXT_SIZE /* verification hook: small buffer */
+#else
 #define TEXT_SIZE 2048
+#endif
 
     int c;              /* character */
     size_t base = 0;    /* offset of the decoder input inside of text */
